@@ -276,12 +276,12 @@ theorem cbc_hmac_key_split :
 authentication error — whatever the block cipher would decrypt, whatever the padding looks like
 (no padding oracle), and nothing is output. -/
 theorem cbc_hmac_tag_first (P : Prims) (p : AeadParams) (key iv c ad : Bytes)
-    (hlen : p.tagSize ≤ c.length)
+    (hiv : iv.length = 16) (hlen : p.tagSize ≤ c.length)
     (hbad : c.drop (c.length - p.tagSize) ≠
       cbcHmacTag P p key ad iv (c.take (c.length - p.tagSize))) :
     cbcHmacOpen P p key iv c ad = .err eAuth := by
   unfold cbcHmacOpen
-  rw [if_neg (by omega)]
+  rw [if_neg (by omega), if_neg (by omega)]
   simp only [hbad, ne_eq, not_false_eq_true, if_true]
 
 /-- Conversely a padding error (or a plaintext) can only be observed on an input whose tag verifies. -/
@@ -290,6 +290,12 @@ theorem cbc_hmac_padding_error_needs_valid_tag (P : Prims) (p : AeadParams) (key
     p.tagSize ≤ c.length ∧
       c.drop (c.length - p.tagSize) = cbcHmacTag P p key ad iv (c.take (c.length - p.tagSize)) := by
   unfold cbcHmacOpen at h
+  by_cases hiv : iv.length ≠ 16
+  · rw [if_pos hiv] at h
+    rcases h with h | ⟨_, h⟩
+    · exact absurd h (by decide)
+    · cases h
+  rw [if_neg hiv] at h
   by_cases hl : c.length < p.tagSize
   · rw [if_pos hl] at h
     rcases h with h | ⟨_, h⟩
@@ -313,10 +319,12 @@ theorem cbc_hmac_tamper_partial (P : Prims) (p : AeadParams) (key iv pt ad ct : 
     (hNoForgery : (ad', iv', c'.take (c'.length - p.tagSize)) ≠ (ad, iv, ct) →
       c'.drop (c'.length - p.tagSize) ≠ cbcHmacTag P p key ad' iv' (c'.take (c'.length - p.tagSize))) :
     cbcHmacOpen P p key iv' c' ad' = .err eAuth ∨ cbcHmacOpen P p key iv' c' ad' = .err eAeadSize := by
+  by_cases hiv : iv'.length ≠ 16
+  · right; unfold cbcHmacOpen; rw [if_pos hiv]
   by_cases hl : c'.length < p.tagSize
-  · right; unfold cbcHmacOpen; rw [if_pos hl]
+  · right; unfold cbcHmacOpen; rw [if_neg hiv, if_pos hl]
   · left
-    apply cbc_hmac_tag_first P p key iv' c' ad' (by omega)
+    apply cbc_hmac_tag_first P p key iv' c' ad' (by omega) (by omega)
     by_cases hsame : (ad', iv', c'.take (c'.length - p.tagSize)) = (ad, iv, ct)
     · intro htag
       apply hchanged
@@ -759,7 +767,7 @@ theorem model_assumptions_tie_bodies :
     Generated.C03.aeskwWrapTail = ["c := make([]byte, (n+1)*8)", "copy(c, a)", "for i := 1; i <= n; i++ { for j := range r[i-1] { c[(i*8)+j] = r[i-1][j] } }", "return c, nil"] ∧
     Generated.C03.aeskwUnwrapHead = ["a := make([]byte, 8)", "n := (len(cipherText) / 8) - 1", "r := make([][]byte, n)", "for i := range r { r[i] = make([]byte, 8) copy(r[i], cipherText[(i+1)*8:]) }", "copy(a, cipherText[:8])"] ∧
     Generated.C03.aeskwUnwrapTail = ["if subtle.ConstantTimeCompare(a, defaultIV) != 1 { return nil, errors.New(\"integrity check failed - unexpected IV\") }", "c := arrConcat(r...)", "return c, nil"] ∧
-    Generated.C03.aescbcaeadOpenHead = ["if len(ciphertext) < aead.tagSize { return nil, errors.New(\"invalid ciphertext size\") }", "ciphertextTag := ciphertext[len(ciphertext)-aead.tagSize:]", "ciphertext = ciphertext[:len(ciphertext)-aead.tagSize]", "expectTag := aead.hmacTag(hmac.New(aead.macAlg, aead.macKey), additionalData, nonce, ciphertext, aead.tagSize)", "if !hmac.Equal(ciphertextTag, expectTag) { return nil, errors.New(\"message authentication failed\") }"] ∧
+    Generated.C03.aescbcaeadOpenHead = ["if len(nonce) != aes.BlockSize { return nil, errors.New(\"invalid nonce size\") }", "if len(ciphertext) < aead.tagSize { return nil, errors.New(\"invalid ciphertext size\") }", "ciphertextTag := ciphertext[len(ciphertext)-aead.tagSize:]", "ciphertext = ciphertext[:len(ciphertext)-aead.tagSize]", "expectTag := aead.hmacTag(hmac.New(aead.macAlg, aead.macKey), additionalData, nonce, ciphertext, aead.tagSize)", "if !hmac.Equal(ciphertextTag, expectTag) { return nil, errors.New(\"message authentication failed\") }"] ∧
     Generated.C03.aescbcaeadHmacTagReturn = "return h.Sum(nil)[:l]" := by
   decide
 
@@ -832,36 +840,62 @@ theorem sig_dispatch_consistent :
       (asymOutcome "SignPrivateKey" "EdDSA" k = .ok () ↔ k = .ed25519Priv) := by
   decide
 
-/-- Verification accepts the signatures made by the matching private key: for every lawful
-scheme, every algorithm name and key kind for which both dispatches accept the key
-(`sig_dispatch_consistent`: for the listed names and kinds the second follows from the first). -/
-theorem sig_verify_sign {SK PK : Type} (S : SigScheme SK PK) (hS : S.Lawful) (alg : String)
-    (kind : KeyKind) (sk : SK) (digest rand sig : Bytes)
-    (hver : asymOutcome "VerifyPublicKey" alg kind = .ok ())
-    (hsign : signPrivateKey S alg kind sk digest rand = .ok sig) :
-    verifyPublicKey S alg kind (S.pub sk) digest sig = .ok true := by
+/-- Sign-side and verify-side dispatch agree for EVERY algorithm name and key kind: if `SignPrivateKey`
+proceeds with the plan `a` (helper, hash, curve — computed from the generated switch, `getSHAHash`
+and `ecdsaCurve` tables), `VerifyPublicKey` on the same key proceeds with a plan `b` whose helper
+calls the counterpart stdlib verifier with the SAME hash and the SAME curve.  (That both sides get the
+same hash is thus a theorem about the generated tables, not an assumption of the scheme.) -/
+theorem sig_dispatch_agrees (alg : String) (kind : KeyKind) (a : AsymPlan)
+    (h : asymDispatch "SignPrivateKey" alg kind = .ok a) :
+    ∃ b, asymDispatch "VerifyPublicKey" alg kind = .ok b ∧ PlansMatch verifyCallOf a b :=
+  sig_dispatch_agrees_lemma alg kind a h
+
+example : asymDispatch "SignPrivateKey" "PS384" .rsaPriv =
+    .ok { helper := { name := "signPrivateKeyRSAPSS", rawType := "rsa.PrivateKey", guardErr := "ErrKeyTypeMismatch",
+                      stdCall := "rsa.SignPSS", mapsErrVerification := false, checksCurve := false },
+          hash := 384, curve := 0 } := by decide
+
+/-- Verification accepts the signatures made by the matching private key.  The scheme is a function
+`F` of the dispatch result; `F` is lawful if matching plans (counterpart stdlib call, same hash, same
+curve) give schemes whose verifier accepts the signer's output.  No dispatch hypothesis. -/
+theorem sig_verify_sign {SK PK : Type} (F : AsymPlan → SigScheme SK PK) (hF : SigFamilyLawful F)
+    (alg : String) (kind : KeyKind) (sk : SK) (digest rand sig : Bytes)
+    (hsign : signPrivateKey F alg kind sk digest rand = .ok sig) :
+    ∃ a, asymDispatch "SignPrivateKey" alg kind = .ok a ∧
+      verifyPublicKey F alg kind ((F a).pub sk) digest sig = .ok true := by
   unfold signPrivateKey at hsign
-  unfold verifyPublicKey
-  cases ho : asymOutcome "SignPrivateKey" alg kind with
-  | ok u =>
+  cases ho : asymDispatch "SignPrivateKey" alg kind with
+  | ok a =>
     rw [ho] at hsign
     simp only at hsign
-    have hv := hS sk digest rand sig hsign
-    rw [hver]
-    simp only [hv]
+    obtain ⟨b, hb, hm⟩ := sig_dispatch_agrees alg kind a ho
+    refine ⟨a, rfl, ?_⟩
+    unfold verifyPublicKey
+    rw [hb]
+    simp only [hF a b hm sk digest rand sig hsign]
   | err e => rw [ho] at hsign; cases hsign
   | panic w => rw [ho] at hsign; cases hsign
 
+/-- The special case of one scheme for all plans (the earlier formulation). -/
+theorem sig_verify_sign_all {SK PK : Type} (S : SigScheme SK PK) (hS : S.Lawful) (alg : String)
+    (kind : KeyKind) (sk : SK) (digest rand sig : Bytes)
+    (hsign : signPrivateKey (fun _ => S) alg kind sk digest rand = .ok sig) :
+    verifyPublicKey (fun _ => S) alg kind (S.pub sk) digest sig = .ok true := by
+  obtain ⟨a, _, hv⟩ := sig_verify_sign (fun _ => S) (fun _ _ _ sk d r s h => hS sk d r s h)
+    alg kind sk digest rand sig hsign
+  exact hv
+
 /-- A trivially lawful scheme (signature = digest) shows the hypotheses are satisfiable. -/
 example : ∃ sig, signPrivateKey (SK := Unit) (PK := Unit)
-      { pub := id, sign := fun _ d _ => .ok d, verify := fun _ d s => if d = s then .valid else .invalid }
+      (fun _ => { pub := id, sign := fun _ d _ => .ok d, verify := fun _ d s => if d = s then .valid else .invalid })
       "ES256" (.ecPriv 256) () [1, 2, 3] [] = .ok sig := ⟨[1, 2, 3], by decide⟩
 
 /-- A verification failure reported by the stdlib verifier is `(false, nil)`, never an error. -/
-theorem verify_false_not_error {SK PK : Type} (S : SigScheme SK PK) (alg : String) (kind : KeyKind)
-    (pk : PK) (digest sig : Bytes) (hinv : S.verify pk digest sig = .invalid)
-    (hdisp : asymOutcome "VerifyPublicKey" alg kind = .ok ()) :
-    verifyPublicKey S alg kind pk digest sig = .ok false := by
+theorem verify_false_not_error {SK PK : Type} (F : AsymPlan → SigScheme SK PK) (alg : String)
+    (kind : KeyKind) (pk : PK) (digest sig : Bytes) (pl : AsymPlan)
+    (hdisp : asymDispatch "VerifyPublicKey" alg kind = .ok pl)
+    (hinv : (F pl).verify pk digest sig = .invalid) :
+    verifyPublicKey F alg kind pk digest sig = .ok false := by
   unfold verifyPublicKey
   rw [hdisp]
   simp only [hinv]
@@ -960,16 +994,26 @@ theorem rsa_decrypt_encrypt (key : RsaKey) :
       rsaDecryptOaep key.n key.d h label ct = some msg) :=
   ⟨rsaDecryptPkcs1v15_encrypt key, rsaDecryptOaep_encrypt key⟩
 
+/-- The plan-indexed RSA family (hash taken from the dispatch result) is lawful on matching plans. -/
+theorem rsa_sig_family_lawful : SigFamilyLawful rsaSigFamily := by
+  intro a b hm sk d r s hs
+  obtain ⟨_, _, hh, _⟩ := hm
+  have : rsaSigFamily b = rsaSigFamily a := by simp [rsaSigFamily, rsaHashOfPlan, hh]
+  rw [this]
+  exact rsa_pkcs1v15_verify_sign (rsaHashOfPlan a) sk d r s hs
+
 /-- `sig_verify_sign` has a concrete satisfiable instance: textbook RSA with the toy key
 (n = 187, e = 7, d = 23), dispatched as RS256 with an RSA private key. -/
-example : ∃ sig, signPrivateKey rsaTextbook "RS256" .rsaPriv toyRsaKey [1, 2, 3] [] = .ok sig ∧
-    verifyPublicKey rsaTextbook "RS256" .rsaPriv (rsaTextbook.pub toyRsaKey) [1, 2, 3] sig = .ok true := by
-  have hs : ∃ sig, signPrivateKey rsaTextbook "RS256" .rsaPriv toyRsaKey [1, 2, 3] [] = .ok sig := by
-    have hd : asymOutcome "SignPrivateKey" "RS256" .rsaPriv = .ok () := by decide
-    exact ⟨_, by simp only [signPrivateKey, hd]; rfl⟩
+example : ∃ sig, signPrivateKey (fun _ => rsaTextbook) "RS256" .rsaPriv toyRsaKey [1, 2, 3] [] = .ok sig ∧
+    verifyPublicKey (fun _ => rsaTextbook) "RS256" .rsaPriv (rsaTextbook.pub toyRsaKey) [1, 2, 3] sig = .ok true := by
+  have hs : ∃ sig, signPrivateKey (fun _ => rsaTextbook) "RS256" .rsaPriv toyRsaKey [1, 2, 3] [] = .ok sig := by
+    have hok : (asymDispatch "SignPrivateKey" "RS256" .rsaPriv).isOk = true := by decide
+    cases hd : asymDispatch "SignPrivateKey" "RS256" .rsaPriv with
+    | ok a => exact ⟨_, by simp only [signPrivateKey, hd]; rfl⟩
+    | err e => rw [hd] at hok; cases hok
+    | panic w => rw [hd] at hok; cases hok
   obtain ⟨sig, hsig⟩ := hs
-  exact ⟨sig, hsig, sig_verify_sign rsaTextbook rsa_verify_sign "RS256" .rsaPriv toyRsaKey [1, 2, 3] [] sig
-    (by decide) hsig⟩
+  exact ⟨sig, hsig, sig_verify_sign_all rsaTextbook rsa_verify_sign "RS256" .rsaPriv toyRsaKey [1, 2, 3] [] sig hsig⟩
 
 /-! ## 9. more structure -/
 
@@ -1019,26 +1063,14 @@ theorem sig_dispatch_consistent_all (alg : String) (kind : KeyKind)
       exact hm (hsub c hc alg (by simpa using hcon))
     simp [asymOutcome, asymPlan, hnone] at h
 
-/-- `sig_verify_sign` without the dispatch hypothesis. -/
-theorem sig_verify_sign_all {SK PK : Type} (S : SigScheme SK PK) (hS : S.Lawful) (alg : String)
-    (kind : KeyKind) (sk : SK) (digest rand sig : Bytes)
-    (hsign : signPrivateKey S alg kind sk digest rand = .ok sig) :
-    verifyPublicKey S alg kind (S.pub sk) digest sig = .ok true := by
-  have hdisp : asymOutcome "SignPrivateKey" alg kind = .ok () := by
-    unfold signPrivateKey at hsign
-    cases ho : asymOutcome "SignPrivateKey" alg kind with
-    | ok u => cases u; rfl
-    | err e => rw [ho] at hsign; cases hsign
-    | panic w => rw [ho] at hsign; cases hsign
-  exact sig_verify_sign S hS alg kind sk digest rand sig (sig_dispatch_consistent_all alg kind hdisp) hsign
-
 /-- The generic entry points: for every listed symmetric name `Encrypt`/`Decrypt` ARE
 `EncryptSymmetric`/`DecryptSymmetric` (this is what failed for the NOPAD names on the unchanged
 tree), so the round trip and every sentinel theorem above holds for them as well. -/
-theorem encrypt_decrypt_are_symmetric (P : Prims) (alg : String) (h : alg ∈ Generated.C03.supportedSymmetric)
+theorem encrypt_decrypt_are_symmetric {SK PK : Type} (P : Prims) (F : AsymPlan → PkeScheme SK PK) (pk : PK)
+    (sk : SK) (rand : Bytes) (alg : String) (h : alg ∈ Generated.C03.supportedSymmetric)
     (key : Key) (pt ct nonce tag ad : Bytes) :
-    encrypt P pt alg key nonce ad = encryptSymmetric P pt alg key nonce ad ∧
-    decrypt P ct alg key nonce tag ad = decryptSymmetric P ct alg key nonce tag ad := by
+    encrypt P F pk rand pt alg key nonce ad = encryptSymmetric P pt alg key nonce ad ∧
+    decrypt P F sk ct alg key nonce tag ad = decryptSymmetric P ct alg key nonce tag ad := by
   obtain ⟨d, hd, hf⟩ := dispatch_total.1 alg h
   obtain ⟨_, _, hE, hD⟩ := symFacts_common hf
   unfold encrypt decrypt
@@ -1046,35 +1078,37 @@ theorem encrypt_decrypt_are_symmetric (P : Prims) (alg : String) (h : alg ∈ Ge
   exact ⟨rfl, rfl⟩
 
 /-- Round trip through the generic `Encrypt` / `Decrypt`. -/
-theorem encrypt_decrypt_roundtrip (P : Prims) (hS : P.Std) (hL : P.LawfulPrims) (alg : String) (d : Denotes)
+theorem encrypt_decrypt_roundtrip {SK PK : Type} (P : Prims) (F : AsymPlan → PkeScheme SK PK) (pk : PK)
+    (sk : SK) (rand : Bytes) (hS : P.Std) (hL : P.LawfulPrims) (alg : String) (d : Denotes)
     (h : alg ∈ Generated.C03.supportedSymmetric) (hd : denotes alg = some d)
     (key pt nonce ad : Bytes) (hk : key.length = d.keyLen)
     (hn : d.family ≠ .kw → nonce.length = d.nonceLen)
     (hnp : d.nopad = true → pt.length % 16 = 0)
     (hkw : d.family = .kw → pt.length % 8 = 0 ∧ 16 ≤ pt.length) :
-    ∃ ct tag, encrypt P pt alg ⟨.oct, key⟩ nonce ad = .ok (ct, tag) ∧ tag.length = d.tagLen ∧
-      decrypt P ct alg ⟨.oct, key⟩ nonce tag ad = .ok pt := by
+    ∃ ct tag, encrypt P F pk rand pt alg ⟨.oct, key⟩ nonce ad = .ok (ct, tag) ∧ tag.length = d.tagLen ∧
+      decrypt P F sk ct alg ⟨.oct, key⟩ nonce tag ad = .ok pt := by
   obtain ⟨ct, tag, h1, h2, h3⟩ := sym_roundtrip P hS hL alg d h hd key pt nonce ad hk hn hnp hkw
   refine ⟨ct, tag, ?_, h2, ?_⟩
-  · rw [(encrypt_decrypt_are_symmetric P alg h ⟨.oct, key⟩ pt ct nonce tag ad).1]; exact h1
-  · rw [(encrypt_decrypt_are_symmetric P alg h ⟨.oct, key⟩ pt ct nonce tag ad).2]; exact h3
+  · rw [(encrypt_decrypt_are_symmetric P F pk sk rand alg h ⟨.oct, key⟩ pt ct nonce tag ad).1]; exact h1
+  · rw [(encrypt_decrypt_are_symmetric P F pk sk rand alg h ⟨.oct, key⟩ pt ct nonce tag ad).2]; exact h3
 
 /-! ## 10. public-key encryption -/
 
-/-- Decryption inverts encryption for every lawful public-key scheme and every name / key kinds the
-two dispatches accept. -/
-theorem pke_decrypt_encrypt {SK PK : Type} (S : PkeScheme SK PK) (hS : S.Lawful) (alg : String)
-    (kindE kindD : KeyKind) (sk : SK) (msg label rand ct : Bytes)
-    (hd : asymOutcome "DecryptPrivateKey" alg kindD = .ok ())
-    (he : encryptPublicKey S alg kindE (S.pub sk) msg label rand = .ok ct) :
-    decryptPrivateKey S alg kindD sk ct label = .ok msg := by
+/-- Decryption inverts encryption through dispatch and guards, for every family of public-key schemes
+indexed by the dispatch result that is lawful on matching plans, every name and every key kinds the
+two dispatches accept.  (That the decryption helper gets the counterpart primitive with the same
+hash is `pke_dispatch_agrees_lemma`, a fact about the generated tables.) -/
+theorem pke_decrypt_encrypt {SK PK : Type} (F : AsymPlan → PkeScheme SK PK) (hF : PkeFamilyLawful F)
+    (alg : String) (kindE kindD : KeyKind) (sk : SK) (msg label rand ct : Bytes) (a b : AsymPlan)
+    (ha : asymDispatch "EncryptPublicKey" alg kindE = .ok a)
+    (hb : asymDispatch "DecryptPrivateKey" alg kindD = .ok b)
+    (he : encryptPublicKey F alg kindE ((F a).pub sk) msg label rand = .ok ct) :
+    decryptPrivateKey F alg kindD sk ct label = .ok msg := by
   unfold encryptPublicKey at he
   unfold decryptPrivateKey
-  rw [hd]
-  cases ho : asymOutcome "EncryptPublicKey" alg kindE with
-  | ok u => rw [ho] at he; exact hS sk msg label rand ct he
-  | err e => rw [ho] at he; cases he
-  | panic w => rw [ho] at he; cases he
+  rw [ha] at he
+  rw [hb]
+  exact hF a b (pke_dispatch_agrees_lemma alg kindE kindD a b ha hb) sk msg label rand ct he
 
 /-- Which keys the encryption names take: every listed name encrypts under an RSA key (public, or
 private through `key.PublicKey()`) and decrypts under an RSA private key ONLY — a public key, or any
@@ -1088,23 +1122,182 @@ theorem pke_dispatch_rsa :
   decide
 
 open Kit.Crypto in
-/-- The RSA encryption schemes of `Kit.Crypto.Rsa` are lawful under the key equation, so
-`pke_decrypt_encrypt` has concrete instances. -/
-theorem rsa_pke_lawful : rsaPkcs1v15Pke.Lawful ∧ ∀ h : RsaHash, (rsaOaepPke h).Lawful := by
-  refine ⟨?_, fun h => ?_⟩
-  · intro key m l r c he
+/-- The RSA encryption schemes of `Kit.Crypto.Rsa` are lawful under the key equation, and so is the
+plan-indexed family built from them: `pke_decrypt_encrypt` has a concrete instance. -/
+theorem rsa_pke_lawful : rsaPkcs1v15Pke.Lawful ∧ (∀ h : RsaHash, (rsaOaepPke h).Lawful) ∧
+    PkeFamilyLawful rsaPkeFamily := by
+  have h15 : rsaPkcs1v15Pke.Lawful := by
+    intro key m l r c he
     simp only [rsaPkcs1v15Pke] at he ⊢
     cases hc : rsaEncryptPkcs1v15 key.n key.e m r with
     | none => rw [hc] at he; cases he
     | some c' =>
       rw [hc] at he; injection he with he; subst he
       rw [rsaDecryptPkcs1v15_encrypt key m r c' hc]
-  · intro key m l r c he
+  have hoaep : ∀ h : RsaHash, (rsaOaepPke h).Lawful := by
+    intro h key m l r c he
     simp only [rsaOaepPke] at he ⊢
     cases hc : rsaEncryptOaep key.n key.e h l m r with
     | none => rw [hc] at he; cases he
     | some c' =>
       rw [hc] at he; injection he with he; subst he
       rw [rsaDecryptOaep_encrypt key h l m r c' hc]
+  refine ⟨h15, hoaep, ?_⟩
+  intro a b hm sk m l r c he
+  obtain ⟨hcall, hq, hh, _⟩ := hm
+  have hhash : rsaHashOfPlan b = rsaHashOfPlan a := by simp [rsaHashOfPlan, hh]
+  by_cases hoa : a.helper.stdCall = "rsa.EncryptOAEP"
+  · have hb : b.helper.stdCall = "rsa.DecryptOAEP" := by rw [hcall, hoa]; decide
+    have fa : rsaPkeFamily a = rsaOaepPke (rsaHashOfPlan a) := by simp [rsaPkeFamily, hoa]
+    have fb : rsaPkeFamily b = rsaOaepPke (rsaHashOfPlan a) := by simp [rsaPkeFamily, hb, hhash]
+    rw [fa] at he; rw [fb]
+    exact hoaep _ sk m l r c he
+  · by_cases h15a : a.helper.stdCall = "rsa.EncryptPKCS1v15"
+    · have hb : b.helper.stdCall = "rsa.DecryptPKCS1v15" := by rw [hcall, h15a]; decide
+      have fa : rsaPkeFamily a = rsaPkcs1v15Pke := by simp [rsaPkeFamily, h15a]
+      have fb : rsaPkeFamily b = rsaPkcs1v15Pke := by simp [rsaPkeFamily, hb]
+      rw [fa] at he; rw [fb]
+      exact h15 sk m l r c he
+    · exact absurd (by simp [decCallOf, hoa, h15a]) hq
+
+/-! ## 11. totality of the asymmetric entry points and of the generic `Encrypt` / `Decrypt` -/
+
+/-- For EVERY function name, EVERY string as algorithm name and EVERY key kind the asymmetric dispatch
+ends in one of three outcomes: accepted, `ErrKeyTypeMismatch`, `ErrUnsupportedAlgorithm` — never a
+panic, also for names shorter than the slices `getSHAHash` (`alg[len-3:]`) and `expectedKeySize`
+(`alg[1:4]`) take: those tables are consulted only for names that occur in a case list. -/
+theorem asym_outcome_total (fn alg : String) (k : KeyKind) :
+    asymOutcome fn alg k = .ok () ∨ asymOutcome fn alg k = .err eKeyTypeMismatch ∨
+    asymOutcome fn alg k = .err eUnsupportedAlgorithm := by
+  rw [asymOutcome_eq]
+  rcases asymPlan_total _ (asymSwitchOf_mem fn) alg with h | ⟨pl, h, hg⟩
+  · rw [h]; right; right; rfl
+  · rw [h]
+    simp only
+    rcases asymGuard_cases pl (asymKeySeen fn k) with hn | hs
+    · rw [hn]; left; rfl
+    · rw [hs, hg]; right; left; rfl
+
+theorem asym_never_panics (fn alg : String) (k : KeyKind) : (asymOutcome fn alg k).isPanic = false := by
+  rcases asym_outcome_total fn alg k with h | h | h <;> rw [h] <;> rfl
+
+example : asymOutcome "SignPrivateKey" "" .rsaPriv = .err eUnsupportedAlgorithm ∧
+    asymOutcome "VerifyPublicKey" "ES" (.ecPub 256) = .err eUnsupportedAlgorithm ∧
+    asymOutcome "DecryptPrivateKey" "RSA-OAEP-256" .rsaPub = .err eKeyTypeMismatch := by decide
+
+/-- An unlisted name is `ErrUnsupportedAlgorithm` at all four asymmetric entry points, whatever the key. -/
+theorem asym_unknown_name (alg : String) (k : KeyKind) :
+    (alg ∉ Generated.C03.supportedAsymmetric →
+      asymOutcome "EncryptPublicKey" alg k = .err eUnsupportedAlgorithm ∧
+      asymOutcome "DecryptPrivateKey" alg k = .err eUnsupportedAlgorithm) ∧
+    (alg ∉ Generated.C03.supportedSignature →
+      asymOutcome "SignPrivateKey" alg k = .err eUnsupportedAlgorithm ∧
+      asymOutcome "VerifyPublicKey" alg k = .err eUnsupportedAlgorithm) := by
+  have key : ∀ fn (L : List String), (∀ c ∈ (asymSwitchOf fn).cases, ∀ x ∈ c.1, x ∈ L) → alg ∉ L →
+      asymOutcome fn alg k = .err eUnsupportedAlgorithm := by
+    intro fn L hsub hn
+    rw [asymOutcome_eq]
+    rcases asymPlan_total _ (asymSwitchOf_mem fn) alg with h | ⟨pl, h, _⟩
+    · rw [h]
+    · obtain ⟨c, hc, hac⟩ := asymPlan_ok_mem h
+      exact absurd (hsub c hc alg hac) hn
+  exact ⟨fun hn => ⟨key "EncryptPublicKey" _ (by decide) hn, key "DecryptPrivateKey" _ (by decide) hn⟩,
+         fun hn => ⟨key "SignPrivateKey" _ (by decide) hn, key "VerifyPublicKey" _ (by decide) hn⟩⟩
+
+/-- Which key kinds the listed names take, at all four entry points (over the 13 kinds of
+`listedKinds`): encryption under an RSA key (private ones through `key.PublicKey()`), decryption under
+an RSA private key only; signing under the PRIVATE key of the family/curve the name denotes,
+verification under the private or public key of that family/curve; every other kind is
+`ErrKeyTypeMismatch`. -/
+theorem asym_key_kinds :
+    (∀ alg ∈ Generated.C03.supportedAsymmetric, ∀ k ∈ listedKinds,
+      (asymOutcome "EncryptPublicKey" alg k = .ok () ↔ kindBase k = "rsa") ∧
+      (asymOutcome "DecryptPrivateKey" alg k = .ok () ↔ k = .rsaPriv) ∧
+      (kindBase k ≠ "rsa" → asymOutcome "EncryptPublicKey" alg k = .err eKeyTypeMismatch) ∧
+      (k ≠ .rsaPriv → asymOutcome "DecryptPrivateKey" alg k = .err eKeyTypeMismatch)) ∧
+    (∀ alg ∈ Generated.C03.supportedSignature, ∀ k ∈ listedKinds,
+      (asymOutcome "SignPrivateKey" alg k = .ok () ↔ (kindBase k = wantBase alg ∧ kindIsPriv k = true)) ∧
+      (asymOutcome "VerifyPublicKey" alg k = .ok () ↔ kindBase k = wantBase alg) ∧
+      (¬ (kindBase k = wantBase alg ∧ kindIsPriv k = true) →
+        asymOutcome "SignPrivateKey" alg k = .err eKeyTypeMismatch) ∧
+      (kindBase k ≠ wantBase alg → asymOutcome "VerifyPublicKey" alg k = .err eKeyTypeMismatch)) := by
+  decide
+
+/-- The generic `Encrypt` / `Decrypt` on a name that is in neither supported list: an error — the
+unsupported-algorithm sentinel, or the key-type sentinel when a non-octet key meets a name of the
+symmetric case list — for every key, every scheme family, all inputs.  No panic, no output. -/
+theorem encrypt_decrypt_unknown_name {SK PK : Type} (P : Prims) (F : AsymPlan → PkeScheme SK PK) (pk : PK)
+    (sk : SK) (rand : Bytes) (alg : String)
+    (h : alg ∉ Generated.C03.supportedSymmetric) (h' : alg ∉ Generated.C03.supportedAsymmetric)
+    (key : Key) (pt ct nonce tag ad : Bytes) :
+    (encrypt P F pk rand pt alg key nonce ad = .err eUnsupportedAlgorithm ∨
+      encrypt P F pk rand pt alg key nonce ad = .err eKeyTypeMismatch) ∧
+    (decrypt P F sk ct alg key nonce tag ad = .err eUnsupportedAlgorithm ∨
+      decrypt P F sk ct alg key nonce tag ad = .err eKeyTypeMismatch) := by
+  have hsym : encryptSymmetric P pt alg key nonce ad = .err eUnsupportedAlgorithm ∨
+      encryptSymmetric P pt alg key nonce ad = .err eKeyTypeMismatch := by
+    obtain ⟨kind, raw⟩ := key
+    by_cases hk : kind = .oct
+    · subst hk; exact Or.inl (guards_unknown_name P alg h raw pt ct nonce tag ad).1
+    · exact Or.inr (guards_key_kind P alg ⟨kind, raw⟩ hk pt ct nonce tag ad).1
+  have hsymD : decryptSymmetric P ct alg key nonce tag ad = .err eUnsupportedAlgorithm ∨
+      decryptSymmetric P ct alg key nonce tag ad = .err eKeyTypeMismatch := by
+    obtain ⟨kind, raw⟩ := key
+    by_cases hk : kind = .oct
+    · subst hk; exact Or.inl (guards_unknown_name P alg h raw pt ct nonce tag ad).2
+    · exact Or.inr (guards_key_kind P alg ⟨kind, raw⟩ hk pt ct nonce tag ad).2
+  have hpkE : ∀ kind, asymDispatch "EncryptPublicKey" alg kind = .err eUnsupportedAlgorithm := by
+    intro kind
+    have := (asym_unknown_name alg kind).1 h'
+    have hE := this.1
+    rw [asymOutcome_of_dispatch] at hE
+    cases hd : asymDispatch "EncryptPublicKey" alg kind with
+    | ok a => rw [hd] at hE; cases hE
+    | err e => rw [hd] at hE; injection hE with hE; rw [hE]
+    | panic w => rw [hd] at hE; cases hE
+  have hpkD : ∀ kind, asymDispatch "DecryptPrivateKey" alg kind = .err eUnsupportedAlgorithm := by
+    intro kind
+    have := (asym_unknown_name alg kind).1 h'
+    have hE := this.2
+    rw [asymOutcome_of_dispatch] at hE
+    cases hd : asymDispatch "DecryptPrivateKey" alg kind with
+    | ok a => rw [hd] at hE; cases hE
+    | err e => rw [hd] at hE; injection hE with hE; rw [hE]
+    | panic w => rw [hd] at hE; cases hE
+  have hroutesE : ∀ c ∈ Generated.C03.sw_Encrypt.cases, c.2.1 = "EncryptSymmetric" ∨ c.2.1 = "EncryptPublicKey" := by
+    decide
+  have hroutesD : ∀ c ∈ Generated.C03.sw_Decrypt.cases, c.2.1 = "DecryptSymmetric" ∨ c.2.1 = "DecryptPrivateKey" := by
+    decide
+  have hdE : Generated.C03.sw_Encrypt.dflt = eUnsupportedAlgorithm := by decide
+  have hdD : Generated.C03.sw_Decrypt.dflt = eUnsupportedAlgorithm := by decide
+  constructor
+  · unfold encrypt encryptRoute
+    cases hl : lookupSwitch Generated.C03.sw_Encrypt alg with
+    | none => left; simp only [Option.map_none, hdE]
+    | some ce =>
+      have hmem : ∃ c ∈ Generated.C03.sw_Encrypt.cases, c.2 = ce := by
+        unfold lookupSwitch at hl
+        rw [Option.map_eq_some_iff] at hl
+        obtain ⟨c, hfind, hc2⟩ := hl
+        exact ⟨c, List.mem_of_find?_eq_some hfind, hc2⟩
+      obtain ⟨c, hc, hce⟩ := hmem
+      rcases hroutesE c hc with hr | hr
+      · simp only [Option.map_some, ← hce, hr]; exact hsym
+      · simp only [Option.map_some, ← hce, hr, encryptPublicKey, hpkE, Outcome.bind]
+        first | trivial | (left; rfl)
+  · unfold decrypt decryptRoute
+    cases hl : lookupSwitch Generated.C03.sw_Decrypt alg with
+    | none => left; simp only [Option.map_none, hdD]
+    | some ce =>
+      have hmem : ∃ c ∈ Generated.C03.sw_Decrypt.cases, c.2 = ce := by
+        unfold lookupSwitch at hl
+        rw [Option.map_eq_some_iff] at hl
+        obtain ⟨c, hfind, hc2⟩ := hl
+        exact ⟨c, List.mem_of_find?_eq_some hfind, hc2⟩
+      obtain ⟨c, hc, hce⟩ := hmem
+      rcases hroutesD c hc with hr | hr
+      · simp only [Option.map_some, ← hce, hr]; exact hsymD
+      · simp only [Option.map_some, ← hce, hr, decryptPrivateKey, hpkD]
+        first | trivial | (left; rfl)
 
 end Kit.CryptoGlue
